@@ -51,7 +51,7 @@ fn main() {
             std::process::exit(huge::main(&args[2..]));
         }
         "zst" => {
-            std::process::exit(zst::main());
+            std::process::exit(zst::main(&args[2..]));
         }
         "borrow" => {
             std::process::exit(borrow::main(&args[2..]));
